@@ -71,7 +71,7 @@ class C06(Prop):
     assumptions = ["module ports are based at 0 with msb >= lsb; assigns join equally wide operands",
                    "positional port maps are not used with never-declared primitives (their ports have no names)",
                    "an expression is never wider than the port it is connected to"]
-    runs = {"quick": 2500, "thorough": 60000}
+    runs = {"quick": 10000, "thorough": 250000}
 
     def configure(self, rng, tier):
         r = rng
